@@ -462,6 +462,13 @@ class Surface(abstract.Surface):
         :setter: Sets the control points as a 2-dimensional array in [u][v] format
         :type: list
         """
+        # The 2-dimensional view follows the control point sizes, also when they were set through the size properties
+        size_u, size_v = self._control_points_size[0], self._control_points_size[1]
+        cpts2d = self._control_points2D
+        if len(self._control_points) == size_u * size_v and \
+                (len(cpts2d) != size_u or any(len(row) != size_v for row in cpts2d)):
+            self._control_points2D = [[self._control_points[v + (size_v * u)] for v in range(size_v)]
+                                      for u in range(size_u)]
         return self._control_points2D
 
     @ctrlpts2d.setter
